@@ -16,14 +16,17 @@ import json
 import math
 import random
 import struct
+import time
 
 from . import valcodec
 from .net import Net, BUS
 
 STREAMS = ['net-exhaustive', 'net-random', 'net-revisions', 'net-spy', 'net-corpus']
-THEOREMS = ['link_refinement', 'call_stage_invariant', 'call_in_exactly_one_stage', 'queues_hold_only_issued_calls',
+THEOREMS = ['link_refinement', 'link_refinement_framing_laws', 'link_refinement_txdbus_framing',
+            'call_stage_invariant', 'call_in_exactly_one_stage', 'queues_hold_only_issued_calls',
             'C11_end_to_end', 'quiescence_reachable', 'C11_completion_always_reachable',
-            'C11_returns_what_it_returned', 'prefix_model_violates']
+            'agreeing_proxy_accepted', 'issued_from_call_steps', 'result_from_step',
+            'C11_call_through_agreeing_proxy', 'C11_returns_what_it_returned', 'prefix_model_violates']
 TRUSTED_BASE = [
     'harness/net.py: in-memory byte pipes + per-peer DBusMessage._nextSerial swapping (one counter per process)',
     'message-level schedule induced from rawDBusMessageReceived/sendMessage instrumentation of each peer',
@@ -263,7 +266,9 @@ def gen_scenario(rng, small=False):
         if not small:
             has_dup = any(_dup_member(spec, m[0]) for i in ifaces for m in i['methods'])
             r = rng.random()
-            if has_dup and r < 0.5:
+            if has_dup and r < 0.3:
+                spec['layout'] = 'decodbus'       # dbus_<m> itself DECORATED for the first interface, impl_ for the second
+            elif has_dup and r < 0.6:
                 spec['layout'] = 'mixed'          # plain dbus_<m> for the first interface, decorated for the second
             elif r < 0.3:
                 spec['layout'] = 'inherit'        # functions spread over base class and sub-class, one overridden
@@ -303,6 +308,12 @@ def gen_scenario(rng, small=False):
         call = {'caller': rng.randrange(n), 'export': ex, 'iface': iface['name'], 'member': meth[0],
                 'how': how, 'wrong': wrong, 'kw': kw, 'bad_args': bad_args, 'order': order,
                 'args': [valcodec.to_line(a) for a in args]}
+        if not small and how == 'introspect' and rng.random() < 0.06:
+            # a member the handler answers itself, called through the introspected proxy object (no user method
+            # runs: only "completes exactly once" is judged)
+            bi, bm = rng.choice([('org.freedesktop.DBus.Peer', 'Ping'),
+                                 ('org.freedesktop.DBus.Introspectable', 'Introspect')])
+            call.update(iface=bi, member=bm, kw=rng.choice([None, bi]), args=[], bad_args=False, wrong='builtin')
         if not small:
             r = rng.random()
             others = [i2['name'] for i2 in spec['ifaces']
@@ -331,6 +342,16 @@ def gen_scenario(rng, small=False):
                 c0 = calls[k0]
                 call.update(reuse=k0, after=k0, caller=c0['caller'], how=c0['how'], order=c0['order'],
                             dest_name=c0.get('dest_name', False))
+                dups = [(ia, ib, ma, mb) for ia in spec['ifaces'] for ib in spec['ifaces'] if ia is not ib
+                        for ma in ia['methods'] for mb in ib['methods'] if ma[0] == mb[0]]
+                if dups and not call.get('refuse') and not c0.get('refuse') and not c0['bad_args'] and rng.random() < 0.8:
+                    # the same member of two interfaces through ONE proxy object, told apart by `interface=` only
+                    ia, ib, ma, mb = rng.choice(dups)
+                    c0.update(member=ma[0], kw=ia['name'], iface=ia['name'],
+                              args=[valcodec.to_line(a) for a in gen_body(rng, ma[1])])
+                    call.update(member=mb[0], kw=ib['name'], iface=ib['name'], bad_args=False,
+                                args=[valcodec.to_line(a) for a in gen_body(rng, mb[1])])
+                    meth = mb
                 # re-select the method under the proxy's listing order
                 listed = list(reversed(spec['ifaces'])) if c0['order'] == 'rev' else spec['ifaces']
                 if not call.get('refuse'):
@@ -551,6 +572,8 @@ class Run:
                     dup = _dup_member(spec, m[0])
                     decorated = dup and not (layout == 'mixed' and first_with[m[0]] == ii)
                     fname = ('impl_%d_%s' % (ii, m[0])) if decorated else 'dbus_' + m[0]
+                    if layout == 'decodbus' and dup and first_with[m[0]] == ii:
+                        fname = 'dbus_' + m[0]      # found by getattr first, but decorated: serves its own interface only
                     fid = fid_next[0]
                     fid_next[0] += 1
                     if layout == 'mixed' and dup and not decorated:
@@ -1312,7 +1335,9 @@ class Run:
                 continue
             # (dbusCaller is compared by the correspondence check only: the sender stamp is C14's statement)
             kind, val = comps[0]
-            res = rec['result']
+            res = rec.get('result')
+            if res is None:
+                continue            # a relay whose nested call never completed: that call is judged on its own
             if res[0] == 'value':
                 ret = res[1]
                 if rec['kind'] == 'bad-return' and isinstance(ret, list) and rec['sigOut'] and rec['sigOut'][0] in 'sixoy':
@@ -1347,7 +1372,7 @@ class Run:
 
 
 # ============================================================================ enumeration / comparison
-def exhaustive_runs(scn, limit):
+def exhaustive_runs(scn, limit, deadline=None):
     """All message-granular schedules of a scenario (stateless DFS).  When there are more than `limit`, the DFS -
     which backtracks from the LAST choice and so varies only the tail - is stopped at limit/2 and the other half
     is spent on uniformly random message-granular schedules, which vary the early choices as well."""
@@ -1367,14 +1392,14 @@ def exhaustive_runs(scn, limit):
             p -= 1
         if p < 0:
             break
-        if len(runs) >= max(1, limit // 2):
+        if len(runs) >= max(1, limit // 2) or (deadline is not None and time.time() > deadline):
             complete = False
             break
         prefix = [list(x) for x in taken[:p]] + [[taken[p][0] + 1, None]]
     if not complete:
         rng = random.Random('dfs-cut/%r' % (scn['vseed'],))
         tries = 0
-        while len(runs) < limit and tries < 3 * limit:
+        while len(runs) < limit and tries < limit and not (deadline is not None and time.time() > deadline):
             tries += 1
             ch = Chooser([], lambda opts: (rng.randrange(len(opts)), None))
             r = Run(scn, ch, message_granular=True)
@@ -1476,17 +1501,17 @@ def run(ctx):
     all_complete = True
     for _ in range(n_small):
         scn = gen_scenario(rng, small=True)
-        rs, complete = exhaustive_runs(scn, cap)
+        rs, complete = exhaustive_runs(scn, cap, deadline=ctx.t0 + (12 if ctx.tier == 'quick' else 330))
         all_complete = all_complete and complete
         ctx.stat('exhaustive-schedules=%d' % min(1000, 50 * (len(rs) // 50)))
         ctx.stat('exhaustive-enumeration=' + ('complete' if complete else 'truncated'))
         report(ctx, 'net-exhaustive', rs)
-        if ctx.elapsed() > (10 if ctx.tier == 'quick' else 300):
+        if ctx.elapsed() > (7 if ctx.tier == 'quick' else 300):
             ctx.note('exhaustive stream stopped early (time)')
             break
     ctx.note('exhaustive interleavings complete for every small scenario: %s' % all_complete)
     # ---- random scenarios, random schedules, arbitrary byte-level read splitting
-    n_rand = ctx.scale(quick=250, thorough=2500)
+    n_rand = ctx.scale(quick=220, thorough=2500)
     batch = []
     for k in range(n_rand):
         scn = gen_scenario(rng)
